@@ -80,6 +80,15 @@ def run (op : String) (a : List Float) : Option String :=
       let (p, l) ← mkP l
       let (q, l) ← mkP l
       if l.isEmpty then some s!"ok {showP (p.invRotateTranslatePose q)}" else none
+  | "scaleseq", l => do
+      let (p, l) ← mkP l
+      let (q, l) ← mkP l
+      match l with
+      | [k, x, y, z] =>
+        let ps := p.scale k
+        let r := ps.invRotateTranslatePose q
+        some s!"ok {showV (ps.rotateTranslate ⟨x, y, z⟩)} {showV (ps.invRotateTranslate ⟨x, y, z⟩)} {showV (ps.invRotateTranslate ⟨x, y, z⟩)} {showP r} {showV ps.t}"
+      | _ => none
   | "rod", l => do
       let (p, l) ← mkV l
       let (r, l) ← mkV l
@@ -94,6 +103,7 @@ def run (op : String) (a : List Float) : Option String :=
       let r := calcAnglePair ⟨rb, tb⟩ ⟨rc, tc⟩ s
       if l.isEmpty then some s!"ok {showF r.1} {showF r.2}" else none
   | "rotvecmat", [x, y, z] => some s!"ok {showM (rotVecMatrix ⟨x, y, z⟩)}"
+  | "rotvecquat", [x, y, z] => let q := rotVecQuat (⟨x, y, z⟩ : V3 Float); some s!"ok {showF q.x} {showF q.y} {showF q.z} {showF q.w}"
   | "quatmat", [x, y, z, w] => some s!"ok {showM (quatMatrix ⟨x, y, z, w⟩)}"
   | "toippe", [x, y, z] => some s!"ok {showV (ippeVecToIppe ⟨x, y, z⟩)}"
   | "tocf", [x, y, z] => some s!"ok {showV (ippeVecToCf ⟨x, y, z⟩)}"
